@@ -1061,3 +1061,107 @@ func c02r8(rc *core.RC) {
 		rc.Unknown("decoder/field-err-returns", token.NoPos, "found %d returns of structFieldSet.err (2 confirmed)", n)
 	}
 }
+
+// ---- C02.R9 a json.Number keeps numbers beyond the float64 range ----
+
+// mentionsErrRange reports whether e (or, one level down, the body of a module function it calls) refers to strconv.ErrRange.
+func mentionsErrRange(p *core.Program, info *types.Info, e ast.Node, depth int) bool {
+	found := false
+	ast.Inspect(e, func(m ast.Node) bool {
+		switch x := m.(type) {
+		case *ast.SelectorExpr:
+			if o := info.Uses[x.Sel]; o != nil && o.Pkg() != nil && o.Pkg().Path() == "strconv" && o.Name() == "ErrRange" {
+				found = true
+			}
+		case *ast.CallExpr:
+			if depth > 0 {
+				if f := core.Callee(info, x); f != nil {
+					if fd := p.DeclOf(f); fd != nil && fd.Body != nil && mentionsErrRange(p, p.Info(fd), fd.Body, depth-1) {
+						found = true
+					}
+				}
+			}
+		}
+		return !found
+	})
+	return found
+}
+
+// The decoder for json.Number stores the text of the number. encoding/json checks that text against the number grammar
+// only; a conversion whose *range* error makes the decode fail rejects valid documents (1e400).
+func c02r9(rc *core.RC) {
+	p := rc.P
+	n := 0
+	for _, fd := range p.Funcs("decoder") {
+		if fd.Body == nil || fd.Recv == nil || !strings.Contains(core.RecvString(fd.Recv.List[0].Type), "numberDecoder") {
+			continue
+		}
+		if fd.Name.Name != "Decode" && fd.Name.Name != "DecodeStream" {
+			continue
+		}
+		n++
+		info := p.Info(fd)
+		fn := p.FuncName(fd)
+		rc.Touch(fn)
+		k := 0
+		ast.Inspect(fd.Body, func(m ast.Node) bool {
+			ifs, ok := m.(*ast.IfStmt)
+			if !ok || ifs.Init == nil {
+				return true
+			}
+			isParse := false
+			ast.Inspect(ifs.Init, func(x ast.Node) bool {
+				if c, isCall := x.(*ast.CallExpr); isCall && core.CalleeName(info, c) == "strconv.ParseFloat" {
+					isParse = true
+				}
+				return true
+			})
+			if !isParse {
+				return true
+			}
+			k++
+			key := fmt.Sprintf("%s/ParseFloat#%d range-error-is-not-a-failure", fn, k)
+			// does the branch fail the decode?
+			fails := false
+			for _, st := range ifs.Body.List {
+				if r, isRet := st.(*ast.ReturnStmt); isRet && core.ReturnIsError(info, r) {
+					fails = true
+				}
+			}
+			if !fails {
+				rc.OK(key, ifs.Pos(), "the conversion's error does not fail the decode")
+				return true
+			}
+			// every conjunct list: one conjunct must exclude the range error
+			excl := false
+			var walk func(e ast.Expr)
+			walk = func(e ast.Expr) {
+				e = core.Unparen(e)
+				if b, isBin := e.(*ast.BinaryExpr); isBin && b.Op == token.LAND {
+					walk(b.X)
+					walk(b.Y)
+					return
+				}
+				if u, isNot := e.(*ast.UnaryExpr); isNot && u.Op == token.NOT && mentionsErrRange(p, info, u.X, 1) {
+					excl = true
+				}
+				if b, isBin := e.(*ast.BinaryExpr); isBin && b.Op == token.NEQ && mentionsErrRange(p, info, b, 0) {
+					excl = true
+				}
+			}
+			walk(ifs.Cond)
+			if excl {
+				rc.OK(key, ifs.Pos(), "the failing branch is taken only for errors other than strconv.ErrRange (%s)", core.Src(p.Fset, ifs.Cond))
+			} else {
+				rc.Bad(key, ifs.Pos(), "a json.Number destination fails on every ParseFloat error (%s), also a range error: Unmarshal(`{\"N\":1e400}`) into struct{N json.Number} is an error where encoding/json stores the text 1e400", core.Src(p.Fset, ifs.Cond))
+			}
+			return true
+		})
+		if k == 0 {
+			rc.OK(fn+"/no-conversion", fd.Pos(), "the number text is not converted at all (the grammar check is C05.R2)")
+		}
+	}
+	if n < 2 {
+		rc.Unknown("decoder.numberDecoder/methods", token.NoPos, "found %d of Decode/DecodeStream on numberDecoder", n)
+	}
+}
